@@ -163,6 +163,7 @@ pub fn profile() -> Profile {
     let mut p = Profile::general();
     p.restart_replaces = false;
     p.p_mut = 20;
+    p.lead_blocks = 8;
     p
 }
 
@@ -187,7 +188,7 @@ pub fn run(ctx: &Ctx) -> (Outcome, String, Option<bool>) {
     let out = crate::runner::run_sharded(
         ctx,
         "restart-histories",
-        ctx.scale(200, 3000),
+        ctx.scale(1500, 15000),
         move || arb_restart_plan(&prof),
         |plan, st, shard| {
             st.eval();
@@ -198,10 +199,98 @@ pub fn run(ctx: &Ctx) -> (Outcome, String, Option<bool>) {
             r
         },
     );
-    let rule = "Generated histories with a stop/restart inserted after a sealed block at a generated position (with or without proposer action at the restart point, with or without tips left uncollected), plus further random restarts; after the restart the original lineage S and the rebuilt lineage from_block(S.to_block(), S.raw_stakes(), store) are driven in lock-step with the same transactions, batches and proposer actions. Oracle: the rebuilt state has the same header; every later batch gets the same accept/reject from both; every later sealed block has the same header from both (the differing fields are reported). Non-trivial = a restart followed by >=1 block with a proposer action or a spend of a coin that existed before the restart; distinct by (restart header, continuation transaction hashes).".to_string();
+    // a restart right after a block whose accepted mint raised the DOSC speed (real TIP-910 proof, difficulty 14)
+    let mut out = out;
+    let o = crate::runner::run_sharded(
+        ctx,
+        "restart-after-mint",
+        ctx.scale(2, 12),
+        || (0u8..3, proptest::bool::ANY),
+        |(extra, with_action), st, shard| {
+            st.eval();
+            restart_after_mint(*extra, *with_action, st, shard)
+        },
+    );
+    out.absorb(o);
+    let rule = "Generated histories with a stop/restart inserted after a sealed block at a generated position (with or without proposer action at the restart point, with or without tips left uncollected), plus further random restarts; after the restart the original lineage S and the rebuilt lineage from_block(S.to_block(), S.raw_stakes(), store) are driven in lock-step with the same transactions, batches and proposer actions. Oracle: the rebuilt state has the same header; every later batch gets the same accept/reject from both; every later sealed block has the same header from both (the differing fields are reported). Non-trivial = a restart followed by >=1 block with a proposer action or a spend of a coin that existed before the restart; distinct by (restart header, continuation transaction hashes). A second phase restarts right after a block in which a genuine TIP-910 mint (difficulty 14) raised the DOSC speed, and compares headers for further blocks.".to_string();
     (out, rule, None)
 }
 
 pub fn replay(case: &serde_json::Value) -> Check {
+    if let Ok((extra, with_action)) = serde_json::from_value::<(u8, bool)>(case.clone()) {
+        let mut st = Stats::default();
+        return restart_after_mint(extra, with_action, &mut st, 200);
+    }
     super::hist::replay_history(case, &profile(), C08::default())
+}
+
+fn restart_after_mint(extra: u8, with_action: bool, st: &mut Stats, shard: usize) -> Check {
+    use melstructs::{CoinData, CoinID, CoinValue, Denom, NetID, ProposerAction, Transaction, TxKind};
+    use crate::world::{CovSpec, GenesisSpec};
+    let g = GenesisSpec {
+        net: NetID::Custom02,
+        init: CoinData { covhash: CovSpec::True.hash(), value: CoinValue(1 << 70), denom: Denom::Mel, additional_data: Default::default() },
+        init_cov: CovSpec::True,
+        fee_pool: 1 << 40,
+        fee_mult: 100,
+        stakes: vec![],
+    };
+    let mut w = World::new(g, shard);
+    if !matches!(w.seal(None), O::Ok(_)) {
+        return Ok(());
+    }
+    // mint against the genesis coin (created at height 0, header 0 exists now)
+    let hdr0 = match w.header_at(0) {
+        Some(h) => h,
+        None => return Ok(()),
+    };
+    struct T910;
+    impl melpow::HashFunction for T910 {
+        fn hash(&self, b: &[u8], k: &[u8]) -> melpow::SVec<u8> {
+            let mut r = blake3::keyed_hash(blake3::hash(k).as_bytes(), b);
+            for _ in 0..99 {
+                r = blake3::hash(r.as_bytes());
+            }
+            melpow::SVec::from_slice(r.as_bytes())
+        }
+    }
+    let coin = CoinID::zero_zero();
+    let puzzle = tmelcrypt::hash_keyed(hdr0.hash(), &stdcode::serialize(&coin).unwrap());
+    let proof = melpow::Proof::generate(&puzzle, 14, T910);
+    let mut tx = Transaction::new(TxKind::DoscMint);
+    tx.inputs = vec![coin];
+    tx.covenants = vec![CovSpec::True.bytes().into()];
+    tx.data = stdcode::serialize(&(14u32, proof.to_bytes())).unwrap().into();
+    tx.fee = CoinValue(1 << 30);
+    tx.outputs.push(CoinData { covhash: CovSpec::True.hash(), value: CoinValue((1u128 << 70) - (1 << 30)), denom: Denom::Mel, additional_data: Default::default() });
+    if !matches!(w.apply_batch(std::slice::from_ref(&tx)), O::Ok(())) {
+        st.exclude("mint-rejected");
+        return Ok(());
+    }
+    let action = if with_action { Some(ProposerAction { fee_multiplier_delta: 5, reward_dest: CovSpec::True.hash() }) } else { None };
+    let s = match w.seal(action) {
+        O::Ok(s) => s,
+        _ => return Ok(()),
+    };
+    if s.header().dosc_speed <= 1_000_000 {
+        st.exclude("speed-not-raised");
+        return Ok(());
+    }
+    let r = Sealed::from_block(&s.to_block(), &s.raw_stakes(), &w.db);
+    if r.header() != s.header() {
+        viol!("rebuilt-header-differs", "after a block whose mint raised the DOSC speed to {}, the state rebuilt from the block has header {:?} instead of {:?}", s.header().dosc_speed, r.header(), s.header());
+    }
+    let (mut a, mut b) = (s.next_unsealed(), r.next_unsealed());
+    for i in 0..=extra {
+        let act = if i % 2 == 0 { Some(ProposerAction { fee_multiplier_delta: -3, reward_dest: CovSpec::True.hash() }) } else { None };
+        let (sa, sb) = (a.seal(act), b.seal(act));
+        if sa.header() != sb.header() {
+            viol!("headers-diverge", "block {} after a restart that followed a speed-raising mint differs between the lineages", sa.header().height);
+        }
+        a = sa.next_unsealed();
+        b = sb.next_unsealed();
+    }
+    st.nontrivial(h64(format!("mint-restart-{}-{}", extra, with_action).as_bytes()));
+    st.class("restart-after-speed-raising-mint");
+    Ok(())
 }
